@@ -62,6 +62,11 @@ func runC14(c *Ctx) {
 				r.Check("R14.1", FuncName(fn), fmt.Sprintf("%s of %s", ef.What, ef.Path), ef.At.Pos(), false,
 					fmt.Sprintf("rendering may modify this (in %s via %s): the next render, or the caller, sees a changed table", FuncName(ef.Fn), ef.Via))
 			}
+			for _, ef := range receiverStateHandedOut(c, fn) {
+				bad++
+				r.Check("R14.1", FuncName(fn), "part of the wrapper itself is handed to "+strings.TrimPrefix(ef.What, "opaque:"), ef.At.Pos(), false,
+					"a callee outside the module may modify state that lives in the wrapper and survives the render")
+			}
 			if bad == 0 {
 				sort.Strings(kept)
 				r.Check("R14.1", FuncName(fn), "mod-set within the allowlist", fn.Pos(), true, strings.Join(kept, "; "))
@@ -112,6 +117,18 @@ func runC14(c *Ctx) {
 							why = "key type is exported"
 						} else {
 							ok, why = true, "private pointer key "+g.Name()
+							// ... whose pointer is minted by the variable's own initializer, not borrowed from anywhere
+							for _, gf := range c.LibFuncs() {
+								eachInstr(gf, func(x ssa.Instruction) {
+									st, isSt := x.(*ssa.Store)
+									if !isSt || st.Addr != ssa.Value(g) {
+										return
+									}
+									if al, isAl := st.Val.(*ssa.Alloc); !isAl || !al.Heap || !(gf.Synthetic != "" && gf.Name() == "init") {
+										ok, why = false, "key variable "+g.Name()+" is assigned "+st.Val.String()+": a pointer it does not own (another renderer, or the user, can hold the same key and overwrite the measurement)"
+									}
+								})
+							}
 						}
 					}
 				}
@@ -259,6 +276,10 @@ func keyGlobalsOf(v ssa.Value) ([]*ssa.Global, bool) {
 		if _, isParam := x.(*ssa.Parameter); isParam {
 			return nil, false
 		}
+		if _, isConst := x.(*ssa.Const); isConst {
+			out = append(out, nil) // a literal key: recognised, and not a package-level variable
+			continue
+		}
 		// field f of an element of a local table
 		fieldIdx := -1
 		cur := x
@@ -337,4 +358,26 @@ func keyGlobalsOf(v ssa.Value) ([]*ssa.Global, bool) {
 		}
 	}
 	return out, len(out) > 0
+}
+
+// receiverStateHandedOut: the effects of fn in which an unanalysed, possibly mutating callee receives a pointer
+// INTO the receiver object itself (the address of one of its fields - as opposed to a pointer merely stored in it).
+func receiverStateHandedOut(c *Ctx, fn *ssa.Function) []effect {
+	var out []effect
+	seen := map[string]bool{}
+	for _, ef := range c.Effects().EffectsOf(fn) {
+		if !strings.HasPrefix(ef.What, "opaque:") || pureOpaque(ef.What) {
+			continue
+		}
+		if ef.Org.Kind != orgParam || ef.Org.Idx != 0 || ef.Org.Deep {
+			continue
+		}
+		k := ef.What + "|" + c.Pos(ef.At.Pos())
+		if seen[k] {
+			continue
+		}
+		seen[k] = true
+		out = append(out, ef)
+	}
+	return out
 }
